@@ -14,3 +14,4 @@ for d in seeded/C*/; do
   echo "$prop: $out" > "$d/detection-final.txt"
 done
 git -C /repo status --short | head -3
+git -C /verif checkout -- evidence 2>/dev/null  # evidence files written while a change was applied are not kept
